@@ -23,7 +23,9 @@ MCWorld == [blocks |-> <<
     Blk(5, 5, 2, 12, 12, <<1, 2, 3>>, TRUE, TRUE),     \* 8 fork (same height as 6)
     Blk(8, 6, 4, 16, 16, <<2, 0, 3>>, TRUE, TRUE),     \* 9 fork tip, heavier than 7
     Blk(7, 7, 2, 90, 16, <<2, 1, 3>>, TRUE, TRUE),     \* 10 forged child of 7: chain root claims td 90
-    Blk(6, 6, 2, 14, 14, <<2, 0, 3>>, FALSE, TRUE)     \* 11 unmined sibling of 7
+    Blk(6, 6, 2, 14, 14, <<2, 0, 3>>, FALSE, TRUE),    \* 11 unmined sibling of 7
+    Blk(9, 7, 2, 18, 18, <<2, 1, 3>>, TRUE, TRUE)      \* 12 child of the fork tip (a fork switch 7 -> 12 is requestable:
+                                                       \*    9 has the height of 7; used by MC_PeerSync_short.cfg only)
   >>]
 
 MCInit ==
